@@ -292,6 +292,10 @@ def render_feature(feature, noise=None, language_header=False):
 
     if language_header:
         out.lines.append(u"# language: %s" % lang)
+    # "lead": blank / comment lines in front of the feature, so that every line number of the
+    # document has three or four digits (a long licence header, a file with many scenarios above)
+    for i in range(feature.get("lead") or 0):
+        out.lines.append(u"" if i % 3 else u"# header line %d" % i)
 
     def emit_tags(tags, indent, taglines=None):
         """tags may be split over several lines; returns [(tag, line)]"""
